@@ -67,6 +67,7 @@ type Master struct {
 	rules      []*rule
 	gates      map[string]*gate
 	unacked    []*pendingUpdate
+	holds      []*callHold // see hold_call.go (empty unless HoldCalls was used)
 }
 
 type liveOffer struct {
@@ -372,6 +373,9 @@ func (m *Master) handle(w http.ResponseWriter, r *http.Request) {
 		return
 	}
 	status, after := m.dispatch(&call, r.Header.Get("Mesos-Stream-Id"))
+	if status == http.StatusAccepted {
+		m.holdCall(&call, r) // returns at once unless HoldCalls asked for calls like this one to be kept in flight
+	}
 	if status != http.StatusAccepted {
 		http.Error(w, "simulated master: call refused", status)
 	} else {
